@@ -142,6 +142,12 @@ class PoolEnv:
             return Builtin(f"CancelScope.{attr}", (lambda ip: self.scope_enter(ip, obj)) if attr == "__enter__" else (lambda ip, *a: self.scope_exit(ip, obj)))
         return NotImplemented
 
+    def pool_override(self, ip, obj, attr):
+        # the root task's done-callback registration (takes precedence over any Task model another module installed)
+        if isinstance(obj, Sym) and obj.ty is TASK and attr in ("add_done_callback", "remove_done_callback", "_loop"):
+            return self.pool_model_getattr(ip, obj, attr)
+        return NotImplemented
+
     def runvar_get(self, ip, rv):
         v = ip.st.get("ThreadPool", rv.field, POOL)
         if ip.ctx.branch(v == 0, "pool-not-set-up"):
@@ -341,7 +347,7 @@ class RunSyncUnit(PoolEnv, FunctionUnit):
                 return r
 
             return Builtin(f"deque.{attr}", take)
-        return NotImplemented
+        return self.pool_override(ip, obj, attr)
 
     def before_suspend(self, ip, what, payload):
         assert_pool_inv(ip, f"AsyncIOBackend.run_sync_in_worker_thread@suspend[{what}]")
@@ -440,6 +446,9 @@ class WorkerUnit(PoolEnv, MethodUnit):
 
     def model_getattr(self, ip, obj, attr):
         return self.pool_model_getattr(ip, obj, attr)
+
+    def override_method(self, ip, obj, attr):
+        return self.pool_override(ip, obj, attr)
 
     def assume_state(self, ip):
         h = H(ip.st)
